@@ -199,6 +199,8 @@ def step2(st: Glue, ev) -> list[str]:
     fails: list[str] = []
     names, prefixes, datatypes = st.sizes
     try:
+        if hasattr(st.enc, "new_row"):
+            st.enc.new_row()  # each event stands for one row (statement) of its own
         if ev[0] == "iri":
             msg = jelly.RdfIri()
             rows = st.enc.encode_iri(ev[1], msg)
